@@ -38,7 +38,7 @@ add("C09", "model_checking",
 EX_NOTE = COMMON_NOTE + "The reference is an independent recursive-descent parser of the Thrift Binary grammar (ref/wire.go) written from the format, not from the code. "
 
 add("C02", "exploration",
-    "Bounded-exhaustive enumeration: every typed value tree of the generator (all 121 map key/value type pairs, all 11 list/set element types, sizes 0..3/many, 121 ordered struct field pairs, wide values, nesting chains to depth 63, strings to 9000 bytes) x trailers x all 11 skipper/reader combinations (incl. a caller-implemented skip interface and Binary.Skip on an input held in a local array on a goroutine stack that moves while it grows) x every fragmentation policy of the stream (incl. sources with Len, runs of empty reads), values whose size needs the top byte of the 32-bit length, plus every per-Read deviation (<= bound) on small values and all decoder histories of <= 3 Next calls with pool reuse, a value > 1 MiB, Release between calls and SkipN before Next; oracle = encoded length / bytes / ReadLen / next byte / bytes pulled from the io.Reader / no Read issued once the value has been delivered.",
+    "Bounded-exhaustive enumeration: every typed value tree of the generator (all 121 map key/value type pairs, all 11 list/set element types, sizes 0..3/many, 121 ordered struct field pairs, wide values, nesting chains to depth 63, strings to 9000 bytes) x trailers x all 11 skipper/reader combinations (incl. a caller-implemented skip interface and Binary.Skip on an input held in a local array on a goroutine stack that moves while it grows) x every fragmentation policy of the stream (incl. sources with Len, runs of empty reads), values whose size needs the top byte of the 32-bit length, plus every per-Read deviation (<= bound) on small values and all decoder histories of <= 3 Next calls with pool reuse, a value > 1 MiB, Release between calls, SkipN before Next, and a first stream ending with its last value (final bytes delivered with the source's error) followed by a healthy stream through the same decoder re-acquired from the pool or re-targeted with Reset; oracle = encoded length / bytes / ReadLen / next byte / bytes pulled from the io.Reader / no Read issued once the value has been delivered.",
     EX_NOTE, "bounded-exhaustive enumeration of typed value trees x environment answers (deviation-bounded) against a reference encoder", "E1+E6", "5/C02")
 add("C03", "exploration",
     "Bounded-exhaustive enumeration of inputs on all 22 buffer-based entry points (string-copying ones under both settings of the span-cache allocator): all grammar-alphabet strings up to length L and all full-alphabet strings up to length 2/3 (Binary.Skip with all 256 type bytes), every truncation, every single (thorough: pair of) structural perturbation and all pairwise splices of valid encodings; each call runs in three placements (against a PROT_NONE guard page, with spare capacity 0x00 and 0xff) under a recover boundary: no panic, no fault, identical results, reported length <= len(input). Call histories on one skip decoder: every sequence of <= 3 calls over 12 exported operations (Next x 6 requested types, SkipN x 4 counts, Reset, Grow) x 4 decoder/reader combinations x every truncation of 5 encodings.",
@@ -62,7 +62,7 @@ add("C13", "exploration",
     "Both directions (bytes -> tree -> bytes, tree -> bytes -> tree) on every generated value tree, all sequences of <= 3 top-level fields, all 121 ordered pairs and 1331 triples of field types inside nested structs (also inside lists and as map values), list<a>/set<b>/scalar/string for all 121 element-type pairs and map<a,b>/list<c>/scalar for all 1331 type triples inside nested structs, empty containers of all 121 key/value type pairs and members of different encoded sizes; the tree is compared field by field incl. Go types and the rule that KeyType/ValType are set only where meaningful.",
     EX_NOTE, "bounded-exhaustive enumeration of typed field trees against a reference encoder", "E6", "5/C13")
 add("C17", "fault_enumeration",
-    "In-memory: every failing call of the Binary readers/ReadMessageBegin/Skip met on all grammar-alphabet strings, all version halves, prefixes/perturbations and deep chains is classified by an independent reference into truncated / unknown type / negative size / bad version / depth and the protocol-exception type id must be admissible. Stream: every BufferReader method on streams cut at EVERY byte position x 8 terminal error values (wrapped sentinels, an error wrapping a protocol exception, a typed error wrapping its cause, wrapped io.EOF, a timeout) x end style x chunk policy, runs of 1..300 empty reads before the error, declared sizes beyond 64 MiB: the failure must match the source's error under errors.Is; pooled readers are deliberately reused across cases so stale state would show.",
+    "In-memory: every failing call of the Binary readers/ReadMessageBegin/Skip met on all grammar-alphabet strings, all version halves, prefixes/perturbations and deep chains is classified by an independent reference into truncated / unknown type / negative size / bad version / depth and the protocol-exception type id must be admissible. Stream: every BufferReader method on streams cut at EVERY byte position x 8 terminal error values (wrapped sentinels, an error wrapping a protocol exception, a typed error wrapping its cause, wrapped io.EOF, a timeout) x end style x chunk policy, runs of 1..300 empty reads before the error, declared sizes beyond 64 MiB: the failure must match the source's error under errors.Is - also after the recycled reader object has served another stream that failed with a different error; pooled readers are deliberately reused across cases so stale state would show.",
     EX_NOTE, "exhaustive fault enumeration (every cut position x every injected error value) plus bounded-exhaustive malformed-input enumeration with an independent cause classifier", "E6+E1", "5/C17")
 
 TTH_NOTE = COMMON_NOTE + "The reference is an independent TTHeader frame builder/decoder/layout checker (ref/tth.go) written from the documented layout with 32-bit arithmetic. "
